@@ -168,6 +168,35 @@ impl StreamId {
         }
     }
     
+    /// Parse an ID whose sequence number may be missing: `<ms>` stands for `<ms>-<missing_seq>`
+    /// (0 for XADD, XDEL, XREAD and a range start, 2^64-1 for a range end).
+    pub fn from_string_with_seq(s: &str, missing_seq: u64) -> Option<Self> {
+        if s.contains('-') {
+            Self::from_string(s)
+        } else {
+            Self::parse_u64_fast(s.as_bytes()).map(|millis| StreamId::new(millis, missing_seq))
+        }
+    }
+    
+    /// Parse a bound of XRANGE / XREVRANGE: an ID, possibly incomplete, possibly prefixed with `(`
+    /// for an exclusive bound. An exclusive start is the next ID, an exclusive end the previous
+    /// one; `None` also when there is no such ID (`(18446744073709551615-18446744073709551615`
+    /// as a start, `(0-0` as an end).
+    pub fn parse_range_bound(s: &str, is_start: bool) -> Option<Self> {
+        let (exclusive, body) = match s.strip_prefix('(') {
+            Some(body) => (true, body),
+            None => (false, s),
+        };
+        let id = Self::from_string_with_seq(body, if is_start { 0 } else { u64::MAX })?;
+        if !exclusive {
+            Some(id)
+        } else if is_start {
+            id.packed.checked_add(1).map(|packed| StreamId { packed })
+        } else {
+            id.packed.checked_sub(1).map(|packed| StreamId { packed })
+        }
+    }
+    
     /// Fast integer parsing
     #[inline]
     fn parse_u64_fast(bytes: &[u8]) -> Option<u64> {
